@@ -23,8 +23,8 @@ theorem argparse_is_2 (v : Variant) (inv : Inv)
   · simp [main, h]
   · simp [main, h, ht, hm]
 
-example : (⟨.ok, .sympy, false, [⟨false, []⟩], ["eggs"], []⟩ : Inv).argparse = .ok ∧
-    (⟨.ok, .sympy, false, [⟨false, []⟩], ["eggs"], []⟩ : Inv).target ≠ .none := by decide
+example : (⟨.ok, .sympy, false, [⟨false, []⟩], [false], []⟩ : Inv).argparse = .ok ∧
+    (⟨.ok, .sympy, false, [⟨false, []⟩], [false], []⟩ : Inv).target ≠ .none := by decide
 
 /-- **Exit status = usage errors + files with parse errors + failing models** (the code as it
     is), for every invocation argparse accepts; in particular 0 on full success. -/
